@@ -37,6 +37,11 @@ Reuse (C02 and others).  Everything lives in `namespace MenpoModel.C06`:
   Lemmas/C06Copy      `Ctx`, `Basic`, `copy_basic` (copy only allocates, result new, same unfolding) — no table needed
   Lemmas/C06Fresh     `copy_no_attr`, `copy_fresh` (owned cells of the copy are new) under `DeepHeap`
   Lemmas/C06Total     `Ordered`, `copy_succeeds`
+  Lemmas/C06Wt        `kindOf_absF`, `copy_newok`, `copy_preserves_wt` (copies conform to the table again)
+  Lemmas/C06Reach     `copy_newslots`, `copy_reach_aux` (a copy reaches nothing foreign)
+  Core/C06Ops         `putSlot resolve HW HOp stepH runH Sep` (mutators and copies as heap histories), `Eff effOK`
+  Lemmas/C06Ops       `own_update`, `own_frame`, `sep_update`, `step_sep`, `step_preserves_wt`
+  Lemmas/C06Typed     `attr_update_conforms`, `dict_update_conforms` (mutated objects stay inside the table)
   Props/C06           the property theorems and `deepHeap_of_tables` (tables ⇒ `DeepHeap`)
 "In-place method returns self and mutates cell a" is `List.set`; "mutates nothing" is `Ext h h'` (or agreement
 on the cells reachable from the argument, see `absF_frame`).
